@@ -37,6 +37,12 @@ def label_value(tgt: bool, enc: str):
     raise ValueError(enc)
 
 
+def level_string(lv, k):
+    """entity name of rollup level `lv`.  'mod' (ModifiedPeptide) uses the same strings as the Peptide column, as for
+    unmodified peptides: identifiers then coincide ACROSS levels (the seen-sets of different levels must not mix)."""
+    return ("K.PEP%dK.A" % k) if lv == "mod" else "%s%d" % (lv.upper(), k)
+
+
 def build_table(rows, *, label_enc="1/-1", extra_levels=(), nfeat=2, key_cols=("ScanNr", "ExpMass")):
     """rows: list of dicts with id (int), spec (int), pep (int), tgt (bool), feats (list of float, optional),
     lvl (dict level-name -> int, optional), file (int, optional).  Returns a DataFrame in PIN column order."""
@@ -55,7 +61,7 @@ def build_table(rows, *, label_enc="1/-1", extra_levels=(), nfeat=2, key_cols=("
         d["f%d" % j] = [float(r.get("feats", [0.0] * nfeat)[j]) for r in rows]
     d["Peptide"] = ["K.PEP%dK.A" % r["pep"] for r in rows]
     for lv in extra_levels:
-        d[LEVEL_COLS[lv]] = ["%s%d" % (lv.upper(), r["lvl"][lv]) for r in rows]
+        d[LEVEL_COLS[lv]] = [level_string(lv, r["lvl"][lv]) for r in rows]
     d["Proteins"] = ["prot_r%d" % r["id"] for r in rows]
     return pd.DataFrame(d)
 
